@@ -21,8 +21,12 @@ func main() {
 			subC06(flag.Args())
 		case "c19stress":
 			subC19Stress(flag.Args())
+		case "userpanic":
+			subUserPanic(flag.Args())
 		case "shutdown":
 			subShutdown(flag.Args())
+		case "schedlines":
+			subSchedLines(flag.Args())
 		case "sched":
 			subSched(flag.Args())
 		case "race":
